@@ -653,4 +653,27 @@ def alignment_symmetry(repo: Repo) -> RuleRun:
 alignment_symmetry.rule_id = "C04.ALIGNMENT-SYMMETRY"
 
 
-RULES = [alignment_branch, simple_only_if_equal, preserve_carried, results_before_copy, axis_direction, coincidence_complete, grade_idempotent, axis_length, inversion_complete, live_grading_length, no_rounding, no_memo, alignment_symmetry]
+
+def grade_replay(repo: Repo) -> RuleRun:
+    """'coincident edges carry the same gradings' on every write: the copies of a second grading pass are taken from gradings of THIS pass - every block is reset before the first one is graded, and a propagating manager drops the chops it copied. Same rule as C12.GRADE-REPLAY."""
+    from ..report import rebrand
+    from . import c12
+
+    return rebrand(c12.grade_replay(repo), PROP, "C04.GRADE-REPLAY")
+
+
+grade_replay.rule_id = "C04.GRADE-REPLAY"
+
+
+def shared_curve(repo: Repo) -> RuleRun:
+    """'the preserved cell size is realised on every edge': on the length of the CURVE of a shared edge, in every block that shares it and whichever way its wire runs. Same rule as C07.SHARED-CURVE."""
+    from ..report import rebrand
+    from . import c07
+
+    return rebrand(c07.shared_curve(repo), PROP, "C04.SHARED-CURVE")
+
+
+shared_curve.rule_id = "C04.SHARED-CURVE"
+
+
+RULES = [alignment_branch, simple_only_if_equal, preserve_carried, results_before_copy, axis_direction, coincidence_complete, grade_idempotent, axis_length, inversion_complete, live_grading_length, no_rounding, no_memo, alignment_symmetry, grade_replay, shared_curve]
